@@ -13,7 +13,7 @@ open CppUtil CppUtil.Epoch
 inductive Op where
   | probe (r : Nat) | gid | hbget
   | guard (v : Nat) | unguard (v : Nat) | gpe (v : Nat) | relist (v : Nat) | gepoch (v : Nat)
-  | fwd (n : Nat) | cur | min
+  | fwd (n : Nat) | cur | min | hold (n : Nat)
   deriving Repr, Inhabited
 
 inductive Pend where
@@ -23,7 +23,7 @@ inductive Pend where
   | enterLoad | enterStore (slot : Nat)
   | loadE (slot : Nat) | leave (slot : Nat)
   | fwdLoadG | fwdExpired (i : Nat) | fwdLoadE (i : Nat) | fwdStoreG | fwdStoreM
-  | loadCur | loadMin
+  | loadCur | loadMin | holdStep
   | exitStep
   | none
   deriving Repr, Inhabited, DecidableEq
@@ -239,6 +239,12 @@ def runPhase (P : Params) (c : Client) (t : Nat) (k : Nat) (op : Op) (ph : Nat) 
     | _ =>
       (setThread c t { th with rep := th.rep - 1 },
         [s!"FE{c.G}:{c.M}:{listStr th.lastList}:{c.live}"], .goto 1)
+  | .hold n =>
+    match ph with
+    | 0 => (setThread c t { th with rep := n }, [], .goto 1)
+    | _ =>
+      if th.rep = 0 then (c, [s!"R{k}=0"], .doneOp)
+      else (setThread c t { th with rep := th.rep - 1, pend := .holdStep }, [], .block 1)
   | .cur =>
     match ph with
     | 0 => (setThread c t { th with pend := .loadCur }, [], .block 1)
@@ -338,6 +344,7 @@ def stepThread (P : Params) (c : Client) (t : Nat) : Option (Client × String ×
     let c := { c with M := m }
     cont c th (atomStr "store" "M" (P.ord "fwd.storeMin").toStr 0 m)
   | .loadCur => cont c { th with val := c.G } (atomStr "load" "G" (P.ord "mgr.getCurrent").toStr c.G c.G)
+  | .holdStep => cont c th (pseudoStr "hold" "-" 0 0)
   | .loadMin => cont c { th with val := c.M } (atomStr "load" "M" (P.ord "mgr.getMin").toStr c.M c.M)
 
 end CppUtil.TClient
